@@ -29,7 +29,7 @@ open Sif
 
 /-- refusal classes of the five messages (what the harness compares) -/
 inductive Err where
-  | nolp | bal | units | asym | validate | panic
+  | nolp | bal | units | asym | validate | panic | queued | health
   deriving DecidableEq, Repr, Inhabited
 
 /-- result of a delivered message -/
@@ -44,6 +44,7 @@ def Res.isOk : Res → Bool
 def Err.toString : Err → String
   | .nolp => "err.nolp" | .bal => "err.bal" | .units => "err.units"
   | .asym => "err.asym" | .validate => "err.validate" | .panic => "panic"
+  | .queued => "err.queued" | .health => "err.health"
 def Res.toString : Res → String
   | .ok => "ok" | .err e => e.toString
 
@@ -225,6 +226,28 @@ def removeH (L C : Nat) (h : Int) (s : Option LP) (wbasis : Int) (asym : Int) : 
   | none => .error .nolp
   | some lp => removeLP L C h lp wbasis.toNat asym
 
+/-! ### the margin-health stage of the two removals.  After `UseUnlockedLiquidity` has accepted, on a
+    margin-enabled pool the handler computes the pool health the removal would leave
+    (`CalculatePoolHealth(&futurePool)`, outside this model: an environment value computed with the
+    implementation's own functions): below `RemovalQueueThreshold` the removal is QUEUED if the
+    removal queue is enabled — `QueueRemoval` writes a queue entry and the handler returns
+    `types.ErrQueued`, an ERROR, so baseapp discards the entry together with the consumed unlock
+    records (observation O5: the queue is never persisted) — else refused (`ErrRemovalsBlockedByHealth`).
+    `panic`: the `futurePool` subtraction underflowed. -/
+inductive Health where
+  | pass | queue | block | panic
+  deriving DecidableEq, Repr, Inhabited
+
+def gate (hc : Health) (r : Except Err (Option LP)) : Except Err (Option LP) :=
+  match r with
+  | .error e => .error e
+  | .ok o =>
+    match hc with
+    | .pass => .ok o
+    | .queue => .error .queued
+    | .block => .error .health
+    | .panic => .error .panic
+
 /-! ### AddLiquidity (what it does to the provider record): units grow by the minted amount (an
     environment value: computed by `CalculatePoolUnits`, outside this model); the unlock list is
     NOT pruned and not changed; a missing provider is created with an empty list. -/
@@ -240,8 +263,8 @@ def addH (s : Option LP) (minted : Nat) : Except Err (Option LP) :=
 inductive Op where
   | unlock (key : String) (u : Nat)
   | cancel (key : String) (u : Nat)
-  | removeUnits (key : String) (w : Nat)
-  | remove (key : String) (wbasis asym : Int)
+  | removeUnits (key : String) (w : Nat) (hc : Health)
+  | remove (key : String) (wbasis asym : Int) (hc : Health)
   | add (key : String) (minted : Nat)
   | setParams (L C : Nat)
   deriving Repr
@@ -264,8 +287,8 @@ def commit (s : St) (k : String) : Except Err (Option LP) → St × Res
 def step (s : St) (h : Int) : Op → St × Res
   | .unlock k u => commit s k (unlockH s.L s.C h (s.lps k) u)
   | .cancel k u => commit s k (cancelH s.L s.C h (s.lps k) u)
-  | .removeUnits k w => commit s k (removeUnitsH s.L s.C h (s.lps k) w)
-  | .remove k wb a => commit s k (removeH s.L s.C h (s.lps k) wb a)
+  | .removeUnits k w hc => commit s k (gate hc (removeUnitsH s.L s.C h (s.lps k) w))
+  | .remove k wb a hc => commit s k (gate hc (removeH s.L s.C h (s.lps k) wb a))
   | .add k m => commit s k (addH (s.lps k) m)
   | .setParams L C => ({ s with L := L, C := C }, .ok)
 
